@@ -295,6 +295,9 @@ def fit_vector_agreement(ctx, rule="R18.5"):
 
 
 def run(ctx):
+    from ..small import none_default_rule
+
+    none_default_rule(ctx, "R18.6", ["normalizer/"], 5)
     fit_vector_agreement(ctx)
     range_domain(ctx)
     mirror_pipelines(ctx)
